@@ -47,14 +47,15 @@ type Exec struct {
 	tc     *TermCtx
 	solver *Solver
 
-	decisions []int // prefix to replay
-	dpos      int
-	taken     []int // all decisions taken on this path
-	alts      []workItem
-	picks     []pickRec
-	model     *Model // a model of the current path condition, or nil
-	modelHits int
-	timeVars  int
+	decisions  []int // prefix to replay
+	dpos       int
+	taken      []int // all decisions taken on this path
+	alts       []workItem
+	picks      []pickRec
+	model      *Model // a model of the current path condition, or nil
+	modelHits  int
+	timeVars   int
+	searchHits int
 
 	known map[*Term]bool
 	pc    []*Term
@@ -78,13 +79,14 @@ type Exec struct {
 	observed   []obsRec
 	modelOpen  bool
 	pkgInited  map[*ssa.Package]bool
+	initMode   int
 	lastPanic  string
 
 	enteredLocal  map[*ssa.Function]int
 	intrLocal     map[string]int
 	mapRangeLocal map[string]int
-	branches   int
-	overflowOn bool
+	branches      int
+	overflowOn    bool
 }
 
 type workItem struct {
@@ -300,6 +302,12 @@ func (e *Exec) branch(c *Term) bool {
 		}
 	}
 	if feasT == "" {
+		if m := e.searchModel(c); m != nil {
+			feasT, modelT = "sat", m
+			e.searchHits++
+		}
+	}
+	if feasT == "" {
 		feasT = e.checkWith(c, e.h.feasTimeoutMs)
 		if feasT == "sat" {
 			modelT = e.fetchModel()
@@ -308,6 +316,12 @@ func (e *Exec) branch(c *Term) bool {
 	}
 	if feasT == "unsat" && feasF == "" {
 		feasF = "sat" // the path condition is satisfiable by invariant
+	}
+	if feasF == "" {
+		if m := e.searchModel(notC); m != nil {
+			feasF, modelF = "sat", m
+			e.searchHits++
+		}
 	}
 	if feasF == "" {
 		feasF = e.checkWith(notC, e.h.feasTimeoutMs)
@@ -434,7 +448,8 @@ func (e *Exec) assume(c *Term) {
 // model extraction for scenarios
 func (e *Exec) currentScenario(kind, label string) *Scenario {
 	sc := &Scenario{Property: e.h.property, Harness: e.h.name, Kind: kind, Label: label,
-		Picks: map[string]int{}, Values: map[string]string{}, Solver: e.solver.name, Observe: map[string]string{}}
+		Picks: map[string]int{}, Values: map[string]string{}, Solver: e.solver.name, Observe: map[string]string{},
+		Params: e.h.params, Tier: e.h.tier}
 	for _, p := range e.picks {
 		sc.Picks[p.Name] = p.Val
 	}
@@ -496,6 +511,8 @@ type obsItem struct {
 
 func flattenObs(name string, v Value) []obsItem {
 	switch x := v.(type) {
+	case nil:
+		return []obsItem{{name: name, s: "<nil>"}}
 	case *Term:
 		return []obsItem{{name: name, t: x}}
 	case *BigVal:
@@ -511,15 +528,15 @@ func flattenObs(name string, v Value) []obsItem {
 		if x.t == nil {
 			return []obsItem{{name: name, s: "<nil>"}}
 		}
-		if ev, ok := x.v.(*ErrVal); ok {
-			return []obsItem{{name: name, s: "err:" + ev.Root()}}
+		if _, ok := x.v.(*ErrVal); ok {
+			return []obsItem{{name: name, s: "err"}}
 		}
 		return flattenObs(name, x.v)
 	case *ErrVal:
 		if x == nil {
 			return []obsItem{{name: name, s: "<nil>"}}
 		}
-		return []obsItem{{name: name, s: "err:" + x.Root()}}
+		return []obsItem{{name: name, s: "err"}}
 	case Struct:
 		var out []obsItem
 		for i, f := range x {
@@ -546,6 +563,8 @@ type Scenario struct {
 	Solver    string            `json:"solver"`
 	RepoRev   string            `json:"repo_rev,omitempty"`
 	KnownID   string            `json:"known_id,omitempty"`
+	Params    map[string]int    `json:"params,omitempty"`
+	Tier      string            `json:"tier,omitempty"`
 	Where     string            `json:"where,omitempty"`
 }
 
@@ -587,6 +606,7 @@ type HarnessRun struct {
 	branchTotal  int
 	feasUnknown  int
 	modelHits    int
+	searchHits   int
 	labels       map[string]*labelStat
 	covers       map[string]*Scenario
 	coverHits    map[string]int
@@ -916,6 +936,7 @@ func (h *HarnessRun) runPath(item workItem, s *Solver) (alts []workItem) {
 	defer h.mu.Unlock()
 	h.branchTotal += e.branches
 	h.modelHits += e.modelHits
+	h.searchHits += e.searchHits
 	for f, n := range e.enteredLocal {
 		h.entered[funcKey(f)+"@"+h.prog.funcPos(f)] += n
 	}
